@@ -14,7 +14,8 @@ EXPLANATION = (
     "window and strands queued messages); the queue is touched only by append in publish() and popleft in the refill loop "
     "(no appendleft/pop/insert/remove/rotate/clear), every popped entry is written exactly once in its iteration; publish() "
     "never rejects for window reasons; the refill runs after the append in publish() and after the removal in the PUBACK "
-    "and PUBCOMP handlers. Decides these structural clauses; the numeric bound over histories is not explored.")
+    "and PUBCOMP handlers. Decides these structural clauses; the numeric bound over histories is not explored. "
+    " W-TRIGGER also covers every other packet that frees window slots while the connection stays up (the purge at a clean CONNACK): the refill follows, unless the path was taken under 'queue empty' or the exchange only moved to the release window (PUBREC). W-MODE - the session mode under which a loss keeps or purges queue and window is recorded by the accepted connect() only.")
 ASSUMPTIONS = []
 
 W, Q = "windowPublish", "queuePublishTx"
@@ -103,6 +104,12 @@ def check(ctx):
         cat = catalogue(a, cls)
         cq = cls_short(cls.qual)
         seen_loops = {}
+        # held-back and in-flight messages of a persistent session survive a loss only if the loss is handled under that
+        # connection's session mode: "accepted and held back, never rejected or dropped"
+        from ..lifecycle import rule_session_field
+        rule_session_field(ctx, cat, "W-MODE", "cleanStart", "the session mode",
+                           "a loss during the handshake of a persistent session is handled as a clean one: the queue and the window it "
+                           "inherited are purged, accepted messages never reach the wire")
         for tr in contexts(cat):
             loops = find_refill_loops(tr.path.events)
             # every insertion into the window happens inside such a loop
